@@ -94,11 +94,19 @@ def extra_for(fam, rng, n):
         if fam == "mycat":
             for _ in range(2):
                 murmur.append((rng.randrange(-2 ** 31, 2 ** 31), rng.choice([1, 2, 3, 5]), rng.randint(1, 9)))
+    return {"strings": strings, "ints": ints, "instants": instants, "murmur": murmur}
+
+
+def merge_extra(a, b):
+    return {k: a[k] + b[k] for k in a}
+
+
+def render_extra(x):
     return EXTRA_TLA % {
-        "strings": ", ".join(tla_tuple(s) for s in strings),
-        "ints": ", ".join("<<%s, %s>>" % (neg, tla_tuple(ds)) for neg, ds in ints),
-        "instants": ", ".join(tla_tuple(p) for p in instants),
-        "murmur": ", ".join(tla_tuple(p) for p in murmur),
+        "strings": ", ".join(tla_tuple(s) for s in x["strings"]),
+        "ints": ", ".join("<<%s, %s>>" % (neg, tla_tuple(ds)) for neg, ds in x["ints"]),
+        "instants": ", ".join(tla_tuple(p) for p in x["instants"]),
+        "murmur": ", ".join(tla_tuple(p) for p in x["murmur"]),
     }
 
 
@@ -112,7 +120,7 @@ def generate(ctx, fam, prop, wide, tzs, extra, timeout=900, label=None, xss=None
     types = FAMILIES.get(fam) or fam.split("+")
     cfg = GEN_CFG % {"types": ", ".join('"%s"' % t for t in types), "wide": "TRUE" if wide else "FALSE", "tzs": ", ".join(str(z + 86400) for z in tzs)}
     r = ctx.tlc("RoutingPlace_gen", "place_gen.cfg",
-                extra_files={"place_gen.cfg": cfg, "RoutingPlaceExtra.tla": extra}, workers=1, timeout=timeout,
+                extra_files={"place_gen.cfg": cfg, "RoutingPlaceExtra.tla": render_extra(extra)}, workers=1, timeout=timeout,
                 heap="4g", xss=xss, label=label or ("generate %s cases (wide=%s)" % (fam, wide)))
     if not r.cases:
         raise vlib.Inconclusive("TLC generated no %s cases" % fam)
@@ -134,30 +142,8 @@ def case_of_result(cases, res):
     return cases[res["case"]] if 0 <= res.get("case", -1) < len(cases) else None
 
 
-def replay(ctx, cases, label=""):
-    """G: run the cases on the real code; every disagreement becomes a deviation classified by its signature."""
-    for i, c in enumerate(cases):
-        c["id"] = i
-    res, summ, out = ctx.harness(PKG, HARNESS, RUN, cases)
-    if summ["cases"] != len(cases):
-        raise vlib.Inconclusive("harness replayed %d of %d cases" % (summ["cases"], len(cases)))
-    for r in res:
-        c = case_of_result(cases, r)
-        mini = None
-        if c is not None:
-            mini = {k: c[k] for k in c if k != "id"}
-        for d in r.get("devs", []):
-            ctx.deviation(d["sig"], d["what"], {"kind": "place", "case": mini, "obs": r.get("obs")})
-    ctx.cov["traces_validated_against_impl"] += summ["cases"]
-    ctx.cov["evaluations"] += summ.get("evaluations", 0)
-    for k, v in summ.items():
-        if k.startswith("n_") or k == "rules_built":
-            ctx.cov[k] = ctx.cov.get(k, 0) + v
-    return summ
-
-
-def selftest(ctx, cases):
-    """Binding self-test: corrupted expectations must be reported by the harness."""
+def corrupted(cases):
+    """binding self-test input: copies of real cases with a corrupted expectation"""
     import copy
     bad = []
     for c in cases:
@@ -178,14 +164,42 @@ def selftest(ctx, cases):
             x["layout"]["subtables"] = x["layout"]["subtables"][:-1]
             bad.append(x)
             break
-    for i, c in enumerate(bad):
+    return bad
+
+
+def replay(ctx, cases, selftest=False):
+    """G: run the cases on the real code; every disagreement becomes a deviation classified by its signature.
+    With selftest, corrupted copies of three cases ride along (same process, same harness): each must be reported
+    by the harness, and they are kept out of the verdict."""
+    bad = corrupted(cases) if selftest else []
+    allc = cases + bad
+    for i, c in enumerate(allc):
         c["id"] = i
-    res, summ, _ = ctx.harness(PKG, HARNESS, RUN, bad)
-    flagged = {r["case"] for r in res if r.get("devs")}
-    ok = len(bad) >= 2 and flagged == set(range(len(bad)))
-    ctx.cov["binding_selftest"] = {"corrupted_expectations": len(bad), "detected": len(flagged)}
-    if not ok:
-        raise vlib.Inconclusive("binding self-test failed: %d corrupted expectations, %d detected" % (len(bad), len(flagged)))
+    res, summ, out = ctx.harness(PKG, HARNESS, RUN, allc)
+    if summ["cases"] != len(allc):
+        raise vlib.Inconclusive("harness replayed %d of %d cases" % (summ["cases"], len(allc)))
+    flagged = set()
+    for r in res:
+        if r.get("case", -1) >= len(cases):
+            if r.get("devs"):
+                flagged.add(r["case"])
+            continue
+        c = case_of_result(cases, r)
+        mini = None
+        if c is not None:
+            mini = {k: c[k] for k in c if k != "id"}
+        for d in r.get("devs", []):
+            ctx.deviation(d["sig"], d["what"], {"kind": "place", "case": mini, "obs": r.get("obs")})
+    if selftest:
+        ctx.cov["binding_selftest"] = {"corrupted_expectations": len(bad), "detected": len(flagged)}
+        if len(bad) < 2 or len(flagged) != len(bad):
+            raise vlib.Inconclusive("binding self-test failed: %d corrupted expectations, %d detected" % (len(bad), len(flagged)))
+    ctx.cov["traces_validated_against_impl"] += len(cases)
+    ctx.cov["evaluations"] += summ.get("evaluations", 0)
+    for k, v in summ.items():
+        if k.startswith("n_") or k == "rules_built":
+            ctx.cov[k] = ctx.cov.get(k, 0) + v
+    return summ
 
 
 def sample(ctx, c):
